@@ -26,6 +26,7 @@ type Step struct {
 	Notes     []string // error details and monitor verdicts, '#'-prefixed in the trace
 	Evs       sdk.Events
 	Unhealthy string
+	Queries   []string // `Q …` lines: canonicalised answers of the query server on the post-state
 }
 
 func classifyErr(err error) string {
